@@ -98,6 +98,57 @@ pub fn header_vs_parser(ctx: &mut Ctx, m: &[u8], cut: usize) {
     }
 }
 
+/// Whatever the full parser accepts is a message of exactly the size the header declares (the
+/// header decoder "reports the same ... declared length as the full parse"), and none of its strict
+/// prefixes is accepted: they are reported as truncated with the accepted size as the expected one.
+pub fn accepted_is_what_the_header_declares(ctx: &mut Ctx, b: &[u8]) {
+    if b.len() < 20 || b.len() > 70_000 {
+        return;
+    }
+    let r = guard(|| {
+        let Ok(m) = Message::from_bytes(b) else { return None };
+        let h = MessageHeader::from_bytes(&b[..20]).ok().map(|h| (h.data_length() as usize + 20, h.get_type() == m.get_type(), h.transaction_id() == m.transaction_id()));
+        let mut prefixes = vec![];
+        for cut in [b.len() - 1, b.len().saturating_sub(4), b.len().saturating_sub(8), b.len().saturating_sub(12), b.len().saturating_sub(24), 20] {
+            if cut >= 20 && cut < b.len() {
+                let e = match Message::from_bytes(&b[..cut]) {
+                    Ok(_) => "Ok".to_string(),
+                    Err(StunParseError::Truncated { expected, actual }) if expected == b.len() && actual == cut => String::new(),
+                    Err(e) => format!("{e:?}"),
+                };
+                if !e.is_empty() {
+                    prefixes.push((cut, e));
+                }
+            }
+        }
+        Some((h, prefixes))
+    });
+    if let Ok(Some((h, prefixes))) = r {
+        ctx.count("accepted-buffers-compared-with-their-header");
+        if h != Some((b.len(), true, true)) {
+            ctx.violation(
+                "C17",
+                "header-vs-full-parser",
+                "MessageHeader::from_bytes",
+                "declared-length-of-an-accepted-buffer",
+                || wit(b, b.len()),
+                format!("header ok, declared length + 20 = {} (the size the full parser accepted), same type and transaction id", b.len()),
+                format!("{h:?}"),
+            );
+        } else if let Some((cut, e)) = prefixes.first() {
+            ctx.violation(
+                "C17",
+                "truncated-fields",
+                "Message::from_bytes",
+                "prefix-of-an-accepted-buffer",
+                || wit(b, *cut),
+                format!("Truncated {{ expected: {}, actual: {cut} }}", b.len()),
+                e.clone(),
+            );
+        }
+    }
+}
+
 pub fn run(ctx: &mut Ctx) {
     let quick = ctx.tier == Tier::Quick;
     // ---- well-formed messages (reference-made and builder-made) x every cut ----
@@ -167,6 +218,7 @@ pub fn run(ctx: &mut Ctx) {
             ctx.count("message-types-cut");
         }
         ctx.require("message-types-cut", 16_384);
+    ctx.require("accepted-buffers-compared-with-their-header", 10_000);
     }
     // ---- large messages, sampled cuts ----
     let nl = ctx.n(120, 1_200);
@@ -229,6 +281,21 @@ pub fn run(ctx: &mut Ctx) {
             let m = if i % 3 == 0 { b.clone() } else { mutate(&mut r3, &b, if prev.is_empty() { None } else { Some(&prev) }) };
             if m.len() >= 20 && m.len() <= 4_000 {
                 header_vs_parser(ctx, &m, m.len());
+                accepted_is_what_the_header_declares(ctx, &m);
+                // a sealing attribute appended behind the advertised size, computed the way a sender
+                // that left the length field where the integrity computation put it would
+                if i % 8 == 1 {
+                    let mut x = b.clone();
+                    let mut with_len = x.clone();
+                    let l = (x.len() - 20 + 8) & 0xffff;
+                    set_len(&mut with_len, l);
+                    let crc = crate::refimpl::crypto::crc32_fast(&with_len) ^ 0x5354_554e;
+                    x.extend_from_slice(&[0x80, 0x28, 0x00, 0x04]);
+                    x.extend_from_slice(&crc.to_be_bytes());
+                    header_vs_parser(ctx, &x, x.len());
+                    accepted_is_what_the_header_declares(ctx, &x);
+                    ctx.count("sealing-attribute-behind-the-advertised-size");
+                }
                 // and with the FINGERPRINT (if any) given an impossible length
                 if i % 16 == 0 {
                     let rp = ref_parse(&b);
